@@ -35,6 +35,15 @@ def gen_cases(tier):
     maxterms = 2 if tier == "quick" else 3
     polys = list(gen.polys(N, maxterms, COEFS, offsets=OFFSETS))
     polys.append({(): 5})          # constant (the empty model is polys[0])
+    # magnitude slice: the same small models next to a huge exact-integer offset / with huge exact-integer coefficients
+    # (differences of 1 at magnitude 1e10 are exact in doubles; a solver must still separate them)
+    big = []
+    for D in gen.polys(2, 2, (-1, 1, 2), minterms=1):
+        for off in (10 ** 10, -10 ** 10):
+            E = dict(D)
+            E[()] = off
+            big.append(E)
+        big.append({k: v * 10 ** 10 + (1 if len(k) == 1 else 0) for k, v in D.items()})
 
     def it():
         for kind in ("bool", "spin"):
@@ -49,6 +58,9 @@ def gen_cases(tier):
                         full = sch in ("int", "str") and cont in ("dict", "PUBO", "PUSO", "QUBOMatrix", "QUSOMatrix") \
                             and (len(D) - (() in D)) <= 2
                         yield {"kind": kind, "poly": jd, "container": cont, "scheme": sch, "preds": "full" if full else "menu"}
+            for D in big:
+                for cont in (("dict", "PUBO", "QUBOMatrix") if kind == "bool" else ("dict", "PUSO", "QUSOMatrix")):
+                    yield {"kind": kind, "poly": rp.jdict(D), "container": cont, "scheme": "int", "preds": "menu"}
     return it
 
 
@@ -184,6 +196,7 @@ def check(case, st):
 def run(ctx):
     ctx.bounds = {"n": N, "coefs": COEFS, "offsets": OFFSETS, "max_terms": 2 if ctx.quick else 3,
                   "containers": containers("bool") + containers("spin"), "schemes": list(gen.LABELLED_SCHEMES),
+                  "magnitude_slice": "two-variable models with offsets +-1e10 and with coefficients scaled by 1e10 (+1 on linear terms), exact in doubles",
                   "predicates": "all 2^(2^n) subsets on the slice {int,str labels} x {dict, PUBO/PUSO, QUBOMatrix/QUSOMatrix} x <=2 terms; menu of 7 elsewhere"}
     ctx.rule = ("case = (kind, polynomial, container, label scheme); for each: every applicable solver x predicate x all_solutions; "
                 "non-trivial = some predicate excludes assignments or leaves a tie between minimisers")
